@@ -200,6 +200,14 @@ func buildShared(seed int64, nmaps, ndocs int) *sharedObjects {
 		if len(s.cmds) == 0 {
 			continue
 		}
+		for _, c := range s.cmds {
+			// a field list need not be sorted to be valid (another signer, a hand-written file): verifying must
+			// read it as it is, not tidy it up in place
+			f := c.Signature.SignedFields
+			for i, j := 0, len(f)-1; i < j; i, j = i+1, j-1 {
+				f[i], f[j] = f[j], f[i]
+			}
+		}
 		// ... plus a step nobody has observed yet (not even the signer), holding plugins whose config is
 		// present but EMPTY: an observer that canonicalises "in place" would write to it on first sight
 		pl.Steps = append(pl.Steps, &pipeline.CommandStep{Command: "fresh", Plugins: pipeline.Plugins{
